@@ -5,17 +5,14 @@ From PV Require Import Base.Bytes Base.Outcome Base.Prim Base.Fmt Base.Enum Base
 From PV Require Import Proofs.FmtProofs Proofs.PrimProofs Proofs.ElfLayoutFacts.
 From PV Require Import Gen.ElfLayouts Gen.Tables Gen.PyFuns.
 From PV Require Import Spec.PrimSpec Spec.ElfGabi Spec.C01Obs Spec.C01Image Model.C01ElfFile.
+From PV Require Import Model.C01History.
+From PV Require Export Spec.C01History.
 From PV Require Import Proofs.C01Lemmas Proofs.C01Records Proofs.C01Open.
 From Coq Require Import ZifyBool.
 Ltac Zify.zify_post_hook ::= Z.to_euclidean_division_equations.
 Open Scope string_scope.
 Open Scope list_scope.
 Open Scope Z_scope.
-
-(* the Section object the property expects for entry x of the abstract image *)
-Definition sec_of (s : image_spec) (x : list Z * shdr_spec) : sect :=
-  {| s_name := fst x; s_hdr := exp_shdr s (snd x);
-     s_kind := spec_kind (sh_tyname s (snd x)) (fst x) |}.
 
 (* ------------------------------------------------------------------ the kind table *)
 Lemma assoc_str_none {A} (l : list (string * A)) t :
